@@ -55,9 +55,9 @@ theorem modelled_functions_are_source :
     CV.Gen.paths_body_volumeNameLen =
       "{ if len(path) < 2 { return 0 } c := path[0] if path[1] == ':' && ('a' <= c && c <= 'z' || 'A' <= c && c <= 'Z') { return 2 } if l := len(path); l >= 5 && isSlash(path[0]) && isSlash(path[1]) && !isSlash(path[2]) && path[2] != '.' { for n := 3; n < l-1; n++ { if isSlash(path[n]) { n++ if !isSlash(path[n]) { if path[n] == '.' { break } for ; n < l; n++ { if isSlash(path[n]) { break } } return n } break } } } return 0 }" ∧
     CV.Gen.paths_body_ResolveSymbolicLink =
-      "{ for range strings.Split(path, string(os.PathSeparator)) { sym, part, err := getSymbolinkLink(path) if err != nil { return \"\", err } if sym == \"\" && part == \"\" { return path, nil } resolved := strings.Replace(path, part, sym, 1) if resolved == path { return path, nil } path = resolved } return path, nil }" ∧
+      "{ for range strings.Split(path, string(os.PathSeparator)) { sym, part, err := getSymbolinkLink(path) if err != nil { return \"\", err } if sym == \"\" && part == \"\" { return path, nil } resolved := path if path == part || strings.HasPrefix(path, part+string(os.PathSeparator)) { resolved = sym + strings.TrimPrefix(path, part) } if resolved == path { return path, nil } path = resolved } return path, nil }" ∧
     CV.Gen.paths_body_getSymbolinkLink =
-      "{ parts := strings.Split(path, string(os.PathSeparator)) // Reconstruct the path step by step, checking each component var currentPath string if filepath.IsAbs(path) { currentPath = string(os.PathSeparator) } for _, part := range parts { if part == \"\" { continue } currentPath = filepath.Join(currentPath, part) if isSymLink := isSymbolicLink(currentPath); isSymLink { target, err := filepath.EvalSymlinks(currentPath) if err != nil { return \"\", \"\", err } return target, currentPath, nil } } return \"\", \"\", nil }" ∧
+      "{ if !filepath.IsAbs(path) { return \"\", \"\", nil } parts := strings.Split(path, string(os.PathSeparator)) currentPath := string(os.PathSeparator) for _, part := range parts { if part == \"\" { continue } currentPath = filepath.Join(currentPath, part) if isSymLink := isSymbolicLink(currentPath); isSymLink { target, err := filepath.EvalSymlinks(currentPath) if err != nil { return \"\", \"\", err } return target, currentPath, nil } } return \"\", \"\", nil }" ∧
     CV.Gen.paths_body_isSymbolicLink =
       "{ info, err := os.Lstat(path) if err != nil { return false } return info.Mode()&os.ModeSymlink != 0 }" ∧
     CV.Gen.paths_body_abs =
